@@ -206,7 +206,7 @@ MUTANTS = [
     ('C11', 'eof-closes-at-once', (R, SOCKETS, "            else:\n                self.close(sock)\n        except OSError as e:", "            else:\n                self._close(sock)\n        except OSError as e:"), 'C11.e'),
     ('C03', 'preen-derefs-descriptor', (R, POLLERS, "                    select.select([sock], [sock], [sock], 0)\n", "                    os.fstat(sock.fileno())\n"), 'C03.h'),
     ('C14', 'net-reads-parser', (R, HTTP, "            req = wrappers.Request(fevent.args[0], server=self._server)\n", "            parser = self._buffers.get(fevent.args[0])\n            req = wrappers.Request(fevent.args[0], parser.get_method() if parser else 'GET', server=self._server)\n"), 'C14.c'),
-    ('C15', 'revert-storm', ('revert', 'c08e10c'), 'C15.f'),
+    ('C15', 'storm-again', (R, HTTP, "        if req.handled or res.started:", "        if res.started:"), 'C15.f'),
     ('C15', 'exception-handler-unlatched', (R, HTTP, "        if req.handled:\n            # the request has been answered with an error already\n            return\n        req.handled = True\n", ""), 'C15.f'),
     ('C15', 'success-errors-unlatched', (R, HTTP, "                if req.handled:\n                    # answered with an error already (see _on_exception)\n                    return\n                req.handled = True\n", ""), 'C15.f'),
     ('C14', 'entry-stored-before-version-check', (R, HTTP, "            rp = req.protocol\n            sp = self.protocol\n", "            self._clients[sock] = (req, res)\n            rp = req.protocol\n            sp = self.protocol\n"), 'C14.h'),
@@ -241,6 +241,7 @@ MUTANTS = [
     ('C15', 'revert-stream-non-iterator', ('revert', '69b1a0a'), 'C15.h'),
     ('C15', 'revert-505-version', ('revert', '4ef04b4'), 'C15.i'),
     ('C15', 'revert-400-version', ('revert', '39e6727'), 'C15.i'),
+    ('C15', 'revert-body-source-failure', ('revert', '8891627'), 'C15.j'),
 ]
 
 # behaviour-preserving edits: the check of the property must stay silent
